@@ -10,6 +10,12 @@
     TREQ … same, full tree matching only
     IREQ … same as TREQ, through the index-level matcher `Node.matchIdx` (Model/TreeIdx)  → … | panic
     URL <name hex> <k hex> <v hex> …                 → <hex> | panic
+    GRP <path hex> … END                             → ok | bad-op   the lines in between are executed inside the callback of
+                                                       `Group(path, …)`: the text of an ADD line there is the route's own part,
+                                                       the route registered is the one of the concatenated text (paths of the
+                                                       open groups, outermost first, then the own part — property C11); the AST
+                                                       on the line is the real parser's for the concatenated text; every other
+                                                       operation means what it means outside (a group has no handlers here)
 
   The route text of an ADD line is parsed by Model/Parser; the AST on the line (`!` = the text is
   outside the grammar) is what the REAL parser returned for the text and must agree (cross-check).
@@ -141,6 +147,8 @@ structure St where
   bad : Bool := false
   /-- `router.autoHead` -/
   autoHead : Bool := false
+  /-- the paths of the open groups, outermost first -/
+  groups : List Bytes := []
 
 /-- the outcome as the harness reports it: the HEAD twin of a `Get` runs the handler of its GET registration -/
 def untwin : Outcome → Outcome
@@ -152,7 +160,7 @@ def step (E : Engine) (st : St) (l : List String) : St × String :=
   | ["ADD", hid, ms, text, ast] =>
     -- the route text is parsed by the MODEL parser (Model/Parser, proved sound and complete for the
     -- grammar in Props/C06); the AST the real parser returned travels on the line as a cross-check
-    let parsed := Flamego.parse (hexOf text)
+    let parsed := Flamego.parse (st.groups.flatten ++ hexOf text)
     if parsed != parseAst ast then (st, "ast-mismatch")
     else match parsed with
     | none => (st, "err")
@@ -224,6 +232,9 @@ def step (E : Engine) (st : St) (l : List String) : St × String :=
     match st.R.urlPath (hexOf name) (pairs.map hexOf) with
     | some b => (st, b.toHex)
     | none => (st, "panic")
+  | ["GRP", p] => ({ st with groups := st.groups ++ [hexOf p] }, "ok")
+  | ["END"] =>
+    if st.groups.isEmpty then (st, "bad-op") else ({ st with groups := st.groups.dropLast }, "ok")
   | _ => (st, "bad-op")
 
 def session (E : Engine) (_args : List String) (lines : List (List String)) : List String :=
